@@ -15,6 +15,7 @@ def answer (line : String) : String :=
     | "fab" => fabLine toks
     | "ao" => aoLine toks
     | "ps" => psLine toks
+    | "qspy" => qspyLine toks
     | _ => "bad-family"
   | [] => "bad-line"
 
